@@ -9,6 +9,7 @@ def run(tier, seed, replay):
     run = C.Run("C06", tier, seed, "model_checking")
     d = C.outdir("C06")
     hb = C.build_harness()
+    vbin = C.build_binary()
     cases = os.path.join(d, "cases.ndjson")
     mc = None
     if replay:
@@ -35,6 +36,22 @@ def run(tier, seed, replay):
             run.failure(rec)
     run.traces += s["cases"]
     run.evaluations += s["cases"]
+    # the same cases through the real command line (every k-th case; all of them in the thorough tier / a replay)
+    stride = 1 if (replay or tier == "thorough") else 5
+    tc = os.path.join(d, "trace_cli.ndjson")
+    sc = C.run_harness(hb, ["cli", "CONVERT", cases, tc, C.scratch_dir("C06cli"), vbin, str(stride)], timeout=6000)
+    vc = C.validate_trace("trace/Trace_Convert.tla", "trace/Trace_Convert.cfg", "C06_cli_trace", tc, timeout=3000, heap="8g")
+    run.add_tlc(vc)
+    for (line, fl) in vc.fails:
+        for cl in fl["clauses"]:
+            o = fl["case"]["opts"]
+            rec = {"clause": cl, "flip": o["flip"], "swap": o["swap"], "hasgeo": o["hasgeo"], "case": fl["case"]}
+            idx = fl["case"]["id"]
+            if idx < len(case_list):
+                rec["replay_case"] = case_list[idx]
+            run.failure(rec)
+    run.traces += sc["cases"]
+    run.evaluations += sc["cases"]
     nt = [c for c in case_list if (c["opts"]["flip"] or c["opts"]["swap"]) and len(c["tiles"]) >= 2
           and (c["opts"]["hasgeo"] or c["opts"]["zmin"] >= 0 or c["opts"]["zmax"] >= 0)]
     run.nontrivial = len(nt)
@@ -43,8 +60,10 @@ def run(tier, seed, replay):
     run.rule = ("TLC enumerates tile subsets (distinct payload per coordinate, asymmetric positions on levels 0..2) x 4 flag "
                 "combinations x zoom limits x geographic boxes (half-tile grid of level 2: cutting through tiles, degenerate, world) "
                 "x border; each converting reader is built the way the CLI does, and coverage, walk of the coverage, lookups of all "
-                "coordinates of levels 0..3, box streams and (every 8th case) the file written by the real writer are judged by TLC. "
+                "coordinates of levels 0..3, box streams and (every 8th case) the file written by the real writer are judged by TLC; "
+                "every 5th case (thorough: every case) is also run through the real `versatiles convert` command line "
+                "(options rendered as typed, source file from the independent encoder, output decoded independently). "
                 "non-trivial = case with a transform flag, >= 2 tiles and a zoom or geographic selection")
-    run.extra = {"cases": s["cases"]}
+    run.extra = {"cases": s["cases"], "cli_runs": sc["cases"], "cli_nonzero_exit": sc["nonzero_exit"]}
     run.assumptions = ["f64 inverse Mercator of the harness exact to ~1e-15 tiles at levels <= 4 (geo corners are never within the guard of a boundary unless exactly on it)"]
     return run.finish()
